@@ -30,6 +30,12 @@ JOBS += [
       restrict_fp=["myth_wsapi_runqueue_take.function_pointer_call.1/verif_decide"],
       fuc=["myth_wsapi_runqueue_take"], timeout=300, note="victim worker %d of 2" % v) for v in (0, 1)
 ]
+THS = ["myth_wsqueue_rwbarrier/ofence_contract", "myth_wsqueue_lock_lock/tlock_contract", "myth_wsqueue_lock_unlock/tunlock_contract", "env_owner/env_owner"]
+JOBS += [
+  Job("c02.take_vs_owner", "c02_handshake.c", "h_take_vs_owner", replace=THS, read_hooks=[("top", "verif_rd_top")], defines=["-DQMAX=64"],
+      cbmc=["--unwind", "70", "--unwinding-assertions"], fuc=["myth_queue_take"], timeout=300,
+      note="thief take against the exact SC model of the owner (push, lock-free pop fast path, pop blocked on the lock); capacity symbolic in [2,64]"),
+]
 SCHED = "c02_sched.c"
 L_SCHED = {"myth_sched_loop": [dict(loop_id="0",
     assigns="next_run, g_pending, g_pending_ever, g_resumed_ever, g_steals, ENVS[1].this_thread, ENVS[1].exit_flag, TH1.status, TH1.env, g_ctx_saved, g_switch_to, g_switch_count",
